@@ -38,6 +38,8 @@ SUBJ = {
  "F44": "a map with the same key twice was loaded with inconsistent contents",
  "F40": "captured map keys were recorded again every time",
  "F52": "plain validate exited 0 when a rules file could not be read",
+ "F51": "a data file holding several YAML documents was evaluated",
+ "F53": "the error for a rule that does not exist listed the known rule names in hash order",
  "F31": "`test` listed the rules of a test case in a different order",
 }
 log = subprocess.run(["git", "-C", "/repo", "log", "--format=%h %s"], capture_output=True, text=True).stdout.splitlines()
